@@ -52,14 +52,25 @@ class Lock:
         os.makedirs(BUILD, exist_ok=True)
         self.path = os.path.join(BUILD, f'.{name}.lock')
 
+    _depth = {}     # re-entrant within one process (./check holds it across translator + builds)
+
     def __enter__(self):
-        self.f = open(self.path, 'w')
-        fcntl.flock(self.f, fcntl.LOCK_EX)
+        d = Lock._depth.get(self.path, 0)
+        if d == 0:
+            self.f = open(self.path, 'w')
+            fcntl.flock(self.f, fcntl.LOCK_EX)
+            Lock._file = getattr(Lock, '_file', {})
+            Lock._file[self.path] = self.f
+        Lock._depth[self.path] = d + 1
         return self
 
     def __exit__(self, *a):
-        fcntl.flock(self.f, fcntl.LOCK_UN)
-        self.f.close()
+        d = Lock._depth[self.path] - 1
+        Lock._depth[self.path] = d
+        if d == 0:
+            f = Lock._file.pop(self.path)
+            fcntl.flock(f, fcntl.LOCK_UN)
+            f.close()
 
 
 class Ctx:
